@@ -124,8 +124,15 @@ fn stack_op<T: Elem>(s: &mut PushStack<T>, m: &str, a: &[Value]) -> Value {
         }
         "replace" => match s.replace(us(&a[0]), T::from_j(&a[1])) {
             Ok(()) => json!({"t": "ok", "v": 0}),
-            Err(k) => json!({"t": "err", "v": k}),
+            // (offsets near usize::MAX in the encoding of positions: -1 = usize::MAX, -2 = usize::MAX - 1, ...)
+            Err(k) => json!({"t": "err", "v": if k > i32::MAX as usize { -((usize::MAX - k) as i64) - 1 } else { k as i64 }}),
         },
+        // Clone::clone_from: the stack becomes a copy of another one, whatever it held before
+        "clone_from" => {
+            let other: PushStack<T> = PushStack::from_vec(a[0].as_array().unwrap().iter().map(T::from_j).collect());
+            s.clone_from(&other);
+            unit()
+        }
         "remove" => {
             s.remove(us(&a[0]));
             unit()
@@ -469,7 +476,8 @@ fn item_call(m: &str, a: &[Value]) -> Value {
             let res = if r == Ok(true) { j2item(&a[1]) } else { it };
             json!({"t": if r.is_ok() { "some" } else { "none" }, "v": item2j(&res)})
         }
-        "contains" => match Item::contains(&j2item(&a[0]), &j2item(&a[1]), 0) {
+        // (an optional third argument: the index the search starts counting from)
+        "contains" => match Item::contains(&j2item(&a[0]), &j2item(&a[1]), if a.len() > 2 { us(&a[2]) } else { 0 }) {
             Ok(p) => val(json!(p)),
             Err(()) => val(json!(-1)),
         },
